@@ -270,6 +270,20 @@ def D15():
     return ann is int or ann == "int"
 
 
+def D16():
+    "C19: the decorator keeps the caller's do_not_copy list by reference; a lazy class reads it only at first use"
+    from typing import List
+    shared = ["a"]
+
+    @spec_class(do_not_copy=shared)
+    class Lazy:
+        a: List[int]
+        b: List[int]
+
+    shared.append("b")      # the caller goes on using its list (e.g. for the next class)
+    return Lazy.__spec_class__.attrs["b"].do_not_copy is True
+
+
 def F_C01_1():
     "C01: item preparer rewrites the caller's list in place"
     @spec_class
@@ -408,7 +422,7 @@ def F_C01_2():
     return m.other.v != 0
 
 
-ALL = [D1, D2, D3, D4, D5, D6, D7, D8, D9, D10, D11, D12, D13, D14, D15,
+ALL = [D1, D2, D3, D4, D5, D6, D7, D8, D9, D10, D11, D12, D13, D14, D15, D16,
        F_C01_1, F_C02_1, F_C04_1, F_C13_1, F_C07_1, F_C07_2, F_C07_3, F_C04_2, F_C01_2]
 
 if __name__ == "__main__":
